@@ -76,7 +76,7 @@ def replay_once(h, path):
 
 
 def merge_stats(results):
-    m = {"evaluations": 0, "distinct_nontrivial": 0, "excluded_by_known_findings": 0, "labels": {}, "per_inst": {}, "per_inst_nontrivial": {}, "samples": [], "exhaustive": [], "notes": []}
+    m = {"evaluations": 0, "distinct_nontrivial": 0, "excluded_by_known_findings": 0, "labels": {}, "per_inst": {}, "per_inst_nontrivial": {}, "samples": [], "exhaustive": [], "notes": [], "digests": {}}
     for r in results:
         s = r["stats"]
         if not s:
@@ -87,6 +87,8 @@ def merge_stats(results):
         for k in ("labels", "per_inst", "per_inst_nontrivial"):
             for a, b in s.get(k, {}).items():
                 m[k][a] = m[k].get(a, 0) + b
+        for a, b in s.get("digests", {}).items():
+            m["digests"][a + "#" + str(r["shard"]) if a == "history" else a] = b
         m["samples"] += s.get("samples", [])
         m["exhaustive"] += s.get("exhaustive", [])
         m["notes"] += s.get("notes", [])
